@@ -4,6 +4,7 @@ import common, schema, histgen, refcbor, cborgen
 from concurrent.futures import ThreadPoolExecutor
 THEOREMS = ["C03_window", "C03_alloc_bounded", "C03_alloc_bounded_skip", "C03_alloc_bounded_strings", "C03_time_arith", "C03_index_checked",
             "C03_params_index_checked", "C03_dname", "C03_fuel_partial", "C03_nonvacuous"]
+EXTRA_PROPERTY_FILES = ("Properties_format",)   # obligations over the regenerated Gen_format.v (translator/format.py)
 TOOLS = True
 OPS = ["D pk", "D u", "D n", "D i", "D b", "D bs", "D ts", "D as", "D ms", "D br", "D sk"]
 
